@@ -40,6 +40,8 @@ SKELS = {
     "kwfn": ([("kwfn", 0, [1], [2])], 3),
     "doc_cls": ([("cls", 0, [("doc", 1), ("ann", 2)])], 3),
     "cls_meth_kw": ([("cls", 0, [("kwfn", 1, [2], [3])]), ("ann", 4)], 5),
+    # a function BEFORE the target whose body holds a string constant and a local class (names may coincide with the target's)
+    "fnbody_cls": ([("fnb", 0, [1], [("doc", 2), ("cls", 3, [("ann", 4)])]), ("cls", 5, [("ann", 6)])], 7),
 }
 ALPHA = "abcdefgh"
 
@@ -244,9 +246,16 @@ def r_nested(sid, L, N, S):
 def r_const(sid, L, N, S):
     """a string-constant statement whose text equals the last segment is given a location like a named node"""
     mod, search, _ = ctx(sid, L, N, S)
-    return any(
-        isinstance(n, ast.Expr) and isinstance(n.value, ast.Constant) and n.value.value == search[-1] for n in ast.walk(mod)
-    )
+
+    def outside_functions(node):
+        for ch in ast.iter_child_nodes(node):
+            if isinstance(ch, ast.FunctionDef):
+                continue  # function bodies are never traversed by RewriteAtQuery: constants in there cannot be hit
+            yield ch
+            for x in outside_functions(ch):
+                yield x
+
+    return any(isinstance(n, ast.Expr) and isinstance(n.value, ast.Constant) and n.value.value == search[-1] for n in outside_functions(mod))
 
 
 def _pick_witness(sid, k, L, body_fn, regions):
@@ -358,7 +367,7 @@ def obligations(tier, seed):
                           kf=[("KF-C15-fnreplace", "H.r_fnrepl(%s)" % a), ("KF-C15-nested", "H.r_nested(%s)" % a),
                               ("KF-C15-const", "H.r_const(%s)" % a)],
                           timeout=120 if tier == "quick" else 600, path_timeout=60, funcs=FUNCS))
-    quick = ["cls_ann", "cls_meth", "fn", "ann_cls", "cls_cls", "fn_cls", "cls_fn", "meth_meth", "nested", "doc_cls", "kwfn"]
+    quick = ["cls_ann", "cls_meth", "fn", "ann_cls", "cls_cls", "fn_cls", "cls_fn", "meth_meth", "nested", "doc_cls", "kwfn", "fnbody_cls"]
     ids = quick if tier == "quick" else list(SKELS)
     for sid in ids:
         skel, k = SKELS[sid]
